@@ -11,6 +11,7 @@ import (
 	"io"
 	"net/http"
 	"net/url"
+	"strconv"
 	"strings"
 
 	"git.torproject.org/pluggable-transports/snowflake.git/v2/common/messages"
@@ -62,7 +63,21 @@ func verifHeaderGet(h http.Header, key string) string {
 	}
 	return ""
 }
-func verifHeaderSet(h http.Header, key, value string) {}
+func verifHeaderSet(h http.Header, key, value string) {
+	if key == "Content-Length" { // the one header the completeness of a response depends on
+		h[key] = []string{value}
+	}
+}
+
+// lengthOK: a handler that declares a Content-Length sends exactly that many bytes (net/http
+// cuts the connection otherwise and the peer sees a truncated response).
+func (r *verifRecorder) lengthOK() bool {
+	v, ok := r.hdr["Content-Length"]
+	if !ok || len(v) == 0 {
+		return true
+	}
+	return v[0] == strconv.Itoa(len(r.body))
+}
 
 // encoding/json: Marshal records the value, Unmarshal hands the last recorded value back
 // (loop-back: the broker decodes what the shim / the IPC layer just encoded), or fails when
@@ -138,6 +153,7 @@ func VerifC14_LegacyClient() {
 	}
 	SnowflakeHandler{i, clientOffers}.ServeHTTP(w, r)
 	verifapi.Cover("legacy request answered")
+	verifapi.Assert(w.lengthOK(), "a declared Content-Length is the number of body bytes sent (legacy client)")
 	// the shim hands the matching logic exactly the versioned equivalent: the body as the
 	// offer, the header as the NAT type
 	verifapi.Assert(verifShimSeen, "the legacy request is re-encoded as a versioned poll")
@@ -188,6 +204,7 @@ func VerifC14_Endpoints() {
 		SnowflakeHandler{i, ampClientOffers}.ServeHTTP(w, verifRequest(method, p))
 	}
 	verifapi.Cover("endpoint answered")
+	verifapi.Assert(w.lengthOK(), "a declared Content-Length is the number of body bytes sent")
 	if method != "OPTIONS" && verifBodyErr && ep <= 2 {
 		verifapi.Cover("oversized or unreadable body")
 		verifapi.Assert(w.status >= 400, "a body beyond the limit is answered with an error status")
@@ -201,6 +218,7 @@ func VerifC14_Endpoints() {
 	SnowflakeHandler{i, clientOffers}.ServeHTTP(w2, verifRequest("POST", "/client"))
 	verifSymbolicResponse = false
 	verifapi.Cover("follow-up answered")
+	verifapi.Assert(w2.lengthOK(), "a declared Content-Length is the number of body bytes sent (follow-up)")
 	verifapi.Assert(w2.status == 200, "a later well-formed client poll is still answered")
 	if !verifapi.Native() {
 		verifapi.Assert(string(w2.body) == string(verifLastEncoded), "the body sent to the client is exactly the encoded response, whatever bytes it contains")
